@@ -37,7 +37,7 @@ var emittedAlias = map[string]map[string]string{
 
 // builderPairing checks, for every writer of builder.go, the emitted node type name, the position triple and the
 // key/value pairing against the alias table.
-func builderPairing(c *Ctx, rule string) {
+func builderPairing(c *Ctx, rule string, only ...string) {
 	r := c.R
 	g := c.G()
 	if g == nil {
@@ -51,6 +51,17 @@ func builderPairing(c *Ctx, rule string) {
 	}
 	sort.Strings(names)
 	for _, fn := range names {
+		if len(only) > 0 {
+			keep := false
+			for _, o := range only {
+				if o == fn {
+					keep = true
+				}
+			}
+			if !keep {
+				continue
+			}
+		}
 		fd := load.FuncDecl(bp, "builder", fn)
 		if fd == nil {
 			r.Fatal("anchor builder.%s not found", fn)
@@ -156,6 +167,23 @@ func builderPairing(c *Ctx, rule string) {
 		for key := range got {
 			if _, ok := emittedAlias[fn][key]; !ok && key != "pos" && key != "rules" && key != "line" {
 				bad = append(bad, "key "+key+" is emitted but not in the alias table")
+			}
+		}
+		if fn == "writeRule" {
+			// the two left-recursion flags are written for every rule exactly when the grammar has left recursion
+			for _, ce := range callsIn(fd.Body) {
+				if cn := callName(ce); (cn == "b.writelnf" || cn == "b.writef") && len(ce.Args) == 2 {
+					f := nospace(ce.Args[0])
+					if strings.Contains(f, "leader:") || strings.Contains(f, "leftRecursive:") {
+						gs := strings.Join(guardsOf(fd.Body, ce.Pos()), ";")
+						if gs != "b.haveLeftRecursion" {
+							bad = append(bad, "left-recursion flag emitted under ["+gs+"] instead of exactly b.haveLeftRecursion: rules lacking the flag are treated as not left-recursive by the runtime (memoised, not routed to the leader protocol)")
+						}
+						if !strings.Contains(f, "%t") {
+							bad = append(bad, "left-recursion flag emitted as a constant: "+f)
+						}
+					}
+				}
 			}
 		}
 		sort.Strings(bad)
